@@ -73,6 +73,8 @@ fn snippet(op: &Value) -> String {
             _ => format!("unset {a}; declare -A {a}=([k]={} [other]=x)", ansi_c_quote(value_of(c))),
         },
         "setexported" => format!("unset {a}; export {a}={}", ansi_c_quote(value_of(c))),
+        // given through the test case's `environment` configuration (see `one`): nothing to type in the real run
+        "cfgenv" => ":".to_string(),
         "unsetvar" => format!("unset {a}"),
         "export" => format!("export {a}"),
         "unexport" => format!("export -n {a}"),
@@ -100,7 +102,7 @@ const PROBE: &str = r#"for __pn in v1 BASH_MYVAR; do
     if __e=$(printenv "$__pn"); then printf 'env %s ' "$__pn"; printf '%s' "$__e" | od -An -v -tx1 | tr -d ' \n'; echo; else echo "env $__pn -"; fi
   else echo "var $__pn unset 0 "; echo "env $__pn -"; fi
 done
-if declare -F f1 >/dev/null; then echo "func f1 $(f1)"; else echo "func f1 F0"; fi
+if declare -F f1 >/dev/null; then __fb=$(declare -f f1); case "$__fb" in *F2*) echo "func f1 F2";; *F1*) echo "func f1 F1";; *) echo "func f1 F?";; esac; else echo "func f1 F0"; fi
 if __a=$(alias a1 2>/dev/null); then echo "alias a1 ${__a: -2:1}"; else echo "alias a1 0"; fi
 echo "opts $(set +o | grep -E ' (noglob|nounset|pipefail|noclobber)$' | grep -- ' -o ' | sed 's/.* //' | sort | tr '\n' ' ')"
 echo "shopts $(shopt -p extglob nullglob dotglob | grep -- ' -s ' | sed 's/.* //' | sort | tr '\n' ' ')"
@@ -181,6 +183,9 @@ fn one(id: u64, v: &Value, bash: &Path) -> Value {
         let mut config = TestCaseConfig::default_markdown();
         config.environment.insert("BASE".into(), work.to_string_lossy().to_string());
         if detached { config.detached = Some(true); }
+        for o in t["ops"].as_array().unwrap() {
+            if o["op"] == json!("cfgenv") { config.environment.insert(o["a"].as_str().unwrap().to_string(), value_of(o["c"].as_str().unwrap()).to_string()); }
+        }
         let expr = if detached { ops.join("\n") } else { format!("{}\necho '@@@ {}'\n{}", ops.join("\n"), k + 1, PROBE) };
         tcs.push(TestCase { title: format!("t{}", k + 1), shell_expression: expr, expectations: vec![], exit_code: None, line_number: k + 1, config });
     }
@@ -211,7 +216,9 @@ fn one(id: u64, v: &Value, bash: &Path) -> Value {
     // ---- cross-check: ONE bash session
     let mut script = format!("export BASE={}\ncd \"$BASE\"\n", ansi_c_quote(&single_dir.to_string_lossy()));
     for (k, t) in hist.iter().enumerate() {
-        let ops: Vec<String> = t["ops"].as_array().unwrap().iter().map(snippet).collect();
+        // in the one session a configured variable is an exported variable set before the expression
+        let ops: Vec<String> = t["ops"].as_array().unwrap().iter().map(|o| if o["op"] == json!("cfgenv") {
+            format!("export {}={}", o["a"].as_str().unwrap(), ansi_c_quote(value_of(o["c"].as_str().unwrap()))) } else { snippet(o) }).collect();
         if t["detached"] == json!(true) {
             // by definition a detached test case leaves nothing behind in the session
             script.push_str(":\n");
